@@ -230,7 +230,13 @@ class C17(Property):
             'keeps, takes items off (next) and passes again - to update, |=, the constructors, several instances - '
             'in a fixed family (0/1/2/all items taken first, every first and second consumer) and in a third of the '
             'random histories; every ManyToMany dump carries the readers len / keys / get / in / m[k] of both sides '
-            'on every id the history mentions plus two it does not. Non-trivial = some command evicted or merged an '
+            'on every id the history mentions plus two it does not. Round 5, FIRST in the stream: object lifetime - '
+            'after every constructor form, copy() and copy.copy / deepcopy / pickle clones of either half (source dropped '
+            'or kept) the caller keeps only `.inv`, only the forward object, only what `x.inv.inv` gives, both again or '
+            'nothing of an instance (the other references are let go of, then gc.collect()), mutates through what is left '
+            'through either side - the half that is not held is reached through `.inv` of the one that is - and every '
+            'instance is read on both sides after every command; the same commands appear in a fifth of the random '
+            'histories. Clone attempts themselves are not judged (not operations of the statement). Non-trivial = some command evicted or merged an '
             'existing pair / read from another instance / raised; distinct = distinct history.')
     ASSUMPTIONS = ['keys and values are hashable, == is an equivalence consistent with hash, no NaN',
                    'update/constructor arguments are dicts, lists of pairs, one-shot iterators of pairs, keyword '
@@ -238,6 +244,10 @@ class C17(Property):
                    'update() with a dict / keyword dict that carries one value under two keys: which key keeps the value '
                    'is left open (any order of walking that dict is accepted by the oracle); the model walks it in '
                    'insertion order, like the code',
+                   'copy.copy / copy.deepcopy / pickle of a OneToOne or ManyToMany half: whether the attempt raises and what it '
+                   'returns is not demanded; a result that is a separate well-formed instance with the same pairs is from '
+                   'then on an instance like any other. Only `copy` is in the statement (OneToOne): copy.copy(x) must leave '
+                   'every existing instance what it was (known finding C17-oto-copy-module on the unfixed tree)',
                    'FrozenDict: "mutating dict operation" = __setitem__ __delitem__ __ior__ update setdefault pop '
                    'popitem clear (re-running __init__ is not an operation of the statement)']
     CORRESPONDENCE_NAME = ('C17.Driver (OneToOne / ManyToMany by value AND heap-level with set-object identities / '
@@ -638,7 +648,8 @@ class C17(Property):
                 for s in SIDES:
                     # the clone of a half, the source dropped / the source kept and mutated as well
                     builders.append(([['new', 'list', Q if s == 'f' else tr(Q)] + kw, ['clone', 0, s, how], ['keep', 0, 'none']], 1, False))
-                builders.append(([['new', 'list', Q] + kw, ['clone', 0, 'i', how], ['keep', 0, 'i']], 1, False))
+                    builders.append(([['new', 'list', Q] + kw, ['clone', 0, s, how], ['keep', 0, 'i']], 1,
+                                     how in ('deepcopy', 'pickle2')))
             for pre, r, full in builders:
                 for tail in tails(t, r, full):
                     yield {'t': t, 'ops': [list(o) for o in pre] + tail}
@@ -1310,9 +1321,10 @@ class C17(Property):
         same pairs, with an inverse of its own?"""
         try:
             ci = c.inv
+            ps = lambda z: sorted(((oid(k), oid(v)) for k, v in pairs(z)), key=str)      # ==-aliases read alike
             return bool(type(c) is type(src) and c is not src and ci is not src.inv and ci is not src and ci.inv is c
-                        and type(ci) is type(c) and sorted(map(repr, pairs(c))) == sorted(map(repr, pairs(src)))
-                        and sorted(map(repr, pairs(ci))) == sorted(repr((v, k)) for k, v in pairs(src)))
+                        and type(ci) is type(c) and ps(c) == ps(src)
+                        and ps(ci) == sorted(((v, k) for k, v in ps(src)), key=str))
         except Exception:
             return False
 
@@ -1877,8 +1889,13 @@ class C17(Property):
                 self._nt = True
 
             def flt(f, i):
-                # an EXISTING instance is not what it was right after a clone attempt: say so (own tag)
+                # an EXISTING instance is not what it was right after a clone attempt.  `copy` is among the operations
+                # the statement lists for OneToOne, and copy.copy(x) is that operation through the standard protocol:
+                # judged (own tag).  deepcopy / pickle are not operations of the statement: what they do to anything
+                # is not judged - the rest of the history is then not judged either (the correspondence still compares)
                 if clone_how is not None and i < len(refs) - 1:
+                    if clone_how != 'ccopy':
+                        return None
                     return Failure('clone_damages_source', '%s of a half of instance %d (outcome: %s) changed an existing '
                                    'instance: %s' % (clone_how, op[2][0], rec.get('clone'), f.what))
                 return f
@@ -1988,6 +2005,8 @@ class C17(Property):
                 refs[tgt] = {(b, a) for a, b in P} if inv else P
             if exp_exc is not None:
                 self._nt = True
+            if clone_how not in (None, 'ccopy') and ('exc' in rec or 'dumpexc' in rec):
+                return None     # a deepcopy / pickle attempt that leaves things unreadable: outside the statement
             # --- judge
             if 'exc' in rec and exp_exc is None:
                 return Failure('raises', '%r raised %s' % (op, rec['exc']))
@@ -2046,7 +2065,12 @@ class C17(Property):
                 op = op[:3] + ['list', left]
                 self._nt = True
             exp_ret = '-'
+            cloning = o == 'clone'
             if o == 'clone':
+                # copy.copy / deepcopy / pickle are not operations of the statement (ManyToMany has no copy in its
+                # list): whether the attempt raises, what it returns and what it does to existing instances is not
+                # judged; when an existing instance is no longer what it was the rest of the history is not judged
+                # either (the correspondence still compares it with the model, in which a clone is ManyToMany(src))
                 o, op = 'new', ['new', 'reg', [op[1], op[2]]]
             if o == 'mkiter':
                 iters.append([list(pr) for pr in op[1]])
@@ -2100,6 +2124,8 @@ class C17(Property):
                 refs[tgt] = {(b, a) for a, b in P} if inv else P
             if exp_exc is not None:
                 self._nt = True
+            if cloning and ('exc' in rec or 'dumpexc' in rec):
+                return None     # a clone attempt that leaves things unreadable: outside the statement
             if 'exc' in rec and exp_exc is None:
                 return Failure('raises', '%r raised %s' % (op, rec['exc']))
             if 'exc' in rec and rec['exc'] != exp_exc:
@@ -2112,31 +2138,33 @@ class C17(Property):
                 return Failure('retval', '%r returned %r, expected %r' % (op, rec.get('ret'), exp_ret))
             if len(rec['dump']) != len(refs):
                 return Failure('missing', 'instances %d, expected %d' % (len(rec['dump']), len(refs)))
+            def flt(f, i):
+                return None if (cloning and i < len(refs) - 1) else f
             for i, (d, P) in enumerate(zip(rec['dump'], refs)):
-                who = 'instance %d after %r' % (i, op)
+                who = 'instance %d after %r' % (i, case['ops'][n] if cloning else op)
                 if not d[2]:
-                    return Failure('inv_inv', '%s: x.inv.inv is not x (or x.inv is no longer the object it was)' % who)
+                    return flt(Failure('inv_inv', '%s: x.inv.inv is not x (or x.inv is no longer the object it was)' % who), i)
                 sides = []
                 for name, v in (('forward', d[0]), ('inverse', d[1])):
                     pairs = {tuple(p) for p in v['pairs']}
                     keys = v['keys']
                     grp = {k: vs for k, vs in v['grp']}
                     if any(not vs for vs in grp.values()):
-                        return Failure('empty_entry', '%s: %s side has an empty entry: %r' % (who, name, v['grp']))
+                        return flt(Failure('empty_entry', '%s: %s side has an empty entry: %r' % (who, name, v['grp'])), i)
                     if len(pairs) != len(v['pairs']) or len(set(keys)) != len(keys) or v['len'] != len(keys) \
                             or v['iter'] != keys or pairs != {(k, x) for k, vs in v['grp'] for x in vs} \
                             or any(g != grp.get(j, []) for j, g in v['get']) \
                             or any(h != (1 if j in grp else 0) for j, h in v['has']):
-                        return Failure('views', '%s: %s side readers disagree with each other: %r' % (who, name, v))
+                        return flt(Failure('views', '%s: %s side readers disagree with each other: %r' % (who, name, v)), i)
                     sides.append(pairs)
                 if sides[1] != {(b, a) for a, b in sides[0]}:
-                    return Failure('not_transposed', '%s: forward pairs %r, inverse pairs %r' % (
-                        who, sorted(sides[0], key=str), sorted(sides[1], key=str)))
+                    return flt(Failure('not_transposed', '%s: forward pairs %r, inverse pairs %r' % (
+                        who, sorted(sides[0], key=str), sorted(sides[1], key=str))), i)
                 if sides[0] != P:
                     tag = 'effect' if i == tgt or tgt is None else 'isolation'
-                    return Failure(tag, '%s: holds %r, expected %r%s' % (
+                    return flt(Failure(tag, '%s: holds %r, expected %r%s' % (
                         who, sorted(sides[0], key=str), sorted(P, key=str),
-                        '' if tag == 'effect' else ' (changed by a mutation of another instance)'))
+                        '' if tag == 'effect' else ' (changed by a mutation of another instance)')), i)
         return None
 
     def oracle_fd(self, case, obs):
